@@ -524,7 +524,7 @@ func runC17(cfg *vc.Config, rep *vc.Report) {
 			}
 		}
 	}
-	cfg.Cases(3000, 30000, func(i int, r *vc.Rand) {
+	cfg.Cases(3000, 150000, func(i int, r *vc.Rand) {
 		n := r.Intn(60)
 		if cfg.Tier == "thorough" && r.Chance(1, 10) {
 			n = r.Intn(400)
